@@ -276,6 +276,9 @@ def scen_selection(cfg):
         rcv = asyncsym.mk_node(V, rec, "rcv", 10)
         c = asyncsym.mk_conn(V, rec, snd, rcv, blocking=cfg["blocking"], window=W)
         c._tick = 5
+        rcv._max_records = cfg.get("max_records", 20000)  # truncation is by receiver *step* (get_record), never by message count
+        pre = cfg.get("prerecorded", 0)
+        c._record_messages = [base.MessageRecord(seq_out=10 - pre + i, seq_in=4, ts_sent=0.0, ts_recv=0.0, delay=0.0) for i in range(pre)]
         msgs = []
         for i in range(n):
             sent, recv = V.real(f"sent{i}", lo=0), V.grid(f"recv{i}", lo=0)
@@ -287,7 +290,7 @@ def scen_selection(cfg):
         if n < k:
             return {"waits until all expected messages have been received": len(c.q_msgs) == n and c._tick == 5 and len(c.q_grouped) == 0 and not rec.tasks}
         g = c.q_grouped[0]
-        recs = c._record_messages
+        recs = c._record_messages[pre:]
         return {
             "seq_in is the connection tick, advanced once per selection (also for empty groups)": c._tick == 6 and all(r.seq_in == 5 for r in recs),
             "messages leave the queue in FIFO order and every taken message is recorded": len(recs) == k and [r.seq_out for r in recs] == [10 + i for i in range(k)] and len(c.q_msgs) == n - k,
@@ -441,6 +444,7 @@ def configs(tier):
     for nq, k, W in ([(3, 2, 1), (3, 3, 2), (1, 2, 1), (2, 0, 2)] if not th else [(3, 2, 1), (3, 3, 2), (1, 2, 1), (2, 0, 2), (4, 4, 3), (4, 3, 1)]):
         for b in (False, True):
             out.append(dict(scen="selection", nq=nq, k=k, window=W, blocking=b))
+    out += [dict(scen="selection", nq=3, k=3, window=2, blocking=False, max_records=1), dict(scen="selection", nq=3, k=2, window=1, blocking=True, max_records=2, prerecorded=2)]
     for rate in ([10, 13] if not th else [3, 10, 13, 50]):
         for nb in (0, 1, 2):
             out.append(dict(scen="node_ticks", rate=rate, n_blocking=nb))
